@@ -4,4 +4,4 @@ set -e
 cd "$(dirname "$0")/engine"
 export PATH=/opt/veriftools/go1.26.8/bin:$PATH GOPROXY=off GOSUMDB=off GOTOOLCHAIN=local GOFLAGS=-mod=mod
 mkdir -p ../bin ../evidence ../out
-go build -o ../bin/bngsym .
+go build -o ../bin/bngsym.new . && mv ../bin/bngsym.new ../bin/bngsym
